@@ -94,6 +94,8 @@ pub struct World {
     /// result of an upgrade that contradicts the model (C08)
     pub bad_upgrade: u32,
     pub unwrapped: [bool; MAXN],
+    /// an allocation inside a callback did not follow the documented trigger policy (C15 / C12)
+    pub bad_trigger: u32,
     // ---- program-held pointers
     pub h: [Option<Cc<Node>>; MAXN],
     pub h2: [Option<Cc<Node>>; MAXN],
@@ -151,6 +153,7 @@ pub static mut W: World = World {
     drop_act: [0; MAXN],
     bad_upgrade: 0,
     unwrapped: [false; MAXN],
+    bad_trigger: 0,
     h: [NO_CC; MAXN],
     h2: [NO_CC; MAXN],
     stash: [NO_CC; MAXN],
@@ -279,7 +282,12 @@ impl Finalize for Node {
             F_ALLOC_NODE => {
                 let j = w.n;
                 if j < MAXN {
+                    let e0 = state::executions_count().unwrap_or(0);
+                    let expect = expected_trigger();
                     new_node(j);
+                    if state::executions_count().unwrap_or(0) - e0 != expect as usize {
+                        w.bad_trigger += 1;
+                    }
                     w.born_in_fin[j] = true;
                     w.armed[j] = false;
                     if let Some(c) = w.h[j].take() {
@@ -378,7 +386,12 @@ impl Drop for Node {
         maybe_fault(K_DROP);
         match w.drop_act[id] {
             D_TEMP => {
+                let e0 = state::executions_count().unwrap_or(0);
+                let expect = expected_trigger();
                 let c = Cc::new(9u32);
+                if state::executions_count().unwrap_or(0) - e0 != expect as usize {
+                    w.bad_trigger += 1;
+                }
                 drop(c);
             }
             D_PROBE => {
@@ -420,6 +433,27 @@ impl Drop for Node {
             }
             _ => {}
         }
+    }
+}
+
+/// Whether creating a Cc right now must start a collection: never from a callback of a running collection,
+/// otherwise exactly when the documented policy says so.
+pub fn expected_trigger() -> bool {
+    #[cfg(feature = "auto-collect")]
+    {
+        let (collecting, _, _) = rust_cc::verif::phase_flags();
+        if collecting {
+            return false;
+        }
+        let (auto, bthr) = rust_cc::config::config(|c| (c.auto_collect(), c.buffered_objects_threshold().map_or(0, |x| x.get()))).unwrap_or((false, 0));
+        let thr = rust_cc::verif::bytes_threshold().unwrap_or(usize::MAX);
+        let allocated = state::allocated_bytes().unwrap_or(0);
+        let buffered = state::buffered_objects_count().unwrap_or(0);
+        auto && (allocated > thr || (bthr != 0 && buffered > bthr))
+    }
+    #[cfg(not(feature = "auto-collect"))]
+    {
+        false
     }
 }
 
@@ -792,6 +826,7 @@ pub fn oracle_safety(base: u32) {
     check(w.drop_unfinalized == 0, base + 10); // C05: finalized before dropped
     check(w.nested_collect == 0, base + 12); // C12: collections never nest
     check(w.bad_upgrade == 0, base + 16); // C08: upgrades inside callbacks agree with the model
+    check(w.bad_trigger == 0, base + 17); // C15/C12: allocation-triggered collections follow the policy, never nest
     for i in 0..w.n {
         if !w.created[i] {
             continue;
